@@ -2,7 +2,6 @@
 #include <stdarg.h>
 #include <sys/mman.h>
 #include <sys/stat.h>
-#include <openssl/sha.h>
 
 void die(const char *fmt, ...) {
     va_list ap;
@@ -91,9 +90,50 @@ void put_hex(FILE *o, const void *p, size_t n) {
     }
 }
 
+/* small private SHA-256 (content identity of large observations only; never used as an oracle) */
+static uint32_t ror(uint32_t x, int n) { return (x >> n) | (x << (32 - n)); }
+static void vf_sha256(const unsigned char *p, size_t n, unsigned char md[32]) {
+    static const uint32_t K[64] = {
+        0x428a2f98,0x71374491,0xb5c0fbcf,0xe9b5dba5,0x3956c25b,0x59f111f1,0x923f82a4,0xab1c5ed5,0xd807aa98,0x12835b01,
+        0x243185be,0x550c7dc3,0x72be5d74,0x80deb1fe,0x9bdc06a7,0xc19bf174,0xe49b69c1,0xefbe4786,0x0fc19dc6,0x240ca1cc,
+        0x2de92c6f,0x4a7484aa,0x5cb0a9dc,0x76f988da,0x983e5152,0xa831c66d,0xb00327c8,0xbf597fc7,0xc6e00bf3,0xd5a79147,
+        0x06ca6351,0x14292967,0x27b70a85,0x2e1b2138,0x4d2c6dfc,0x53380d13,0x650a7354,0x766a0abb,0x81c2c92e,0x92722c85,
+        0xa2bfe8a1,0xa81a664b,0xc24b8b70,0xc76c51a3,0xd192e819,0xd6990624,0xf40e3585,0x106aa070,0x19a4c116,0x1e376c08,
+        0x2748774c,0x34b0bcb5,0x391c0cb3,0x4ed8aa4a,0x5b9cca4f,0x682e6ff3,0x748f82ee,0x78a5636f,0x84c87814,0x8cc70208,
+        0x90befffa,0xa4506ceb,0xbef9a3f7,0xc67178f2};
+    uint32_t h[8] = {0x6a09e667,0xbb67ae85,0x3c6ef372,0xa54ff53a,0x510e527f,0x9b05688c,0x1f83d9ab,0x5be0cd19};
+    size_t total = n + 9;
+    total = (total + 63) / 64 * 64;
+    for(size_t off = 0; off < total; off += 64) {
+        unsigned char blk[64];
+        for(int i = 0; i < 64; i++) {
+            size_t q = off + i;
+            if(q < n) blk[i] = p[q];
+            else if(q == n) blk[i] = 0x80;
+            else if(q >= total - 8) blk[i] = (unsigned char)(((uint64_t)n * 8) >> (8 * (total - 1 - q)));
+            else blk[i] = 0;
+        }
+        uint32_t w[64];
+        for(int i = 0; i < 16; i++) w[i] = (uint32_t)blk[4*i] << 24 | blk[4*i+1] << 16 | blk[4*i+2] << 8 | blk[4*i+3];
+        for(int i = 16; i < 64; i++) {
+            uint32_t s0 = ror(w[i-15], 7) ^ ror(w[i-15], 18) ^ (w[i-15] >> 3);
+            uint32_t s1 = ror(w[i-2], 17) ^ ror(w[i-2], 19) ^ (w[i-2] >> 10);
+            w[i] = w[i-16] + s0 + w[i-7] + s1;
+        }
+        uint32_t a=h[0],b=h[1],c=h[2],d=h[3],e=h[4],f=h[5],g=h[6],hh=h[7];
+        for(int i = 0; i < 64; i++) {
+            uint32_t S1 = ror(e,6)^ror(e,11)^ror(e,25), ch = (e&f)^(~e&g), t1 = hh+S1+ch+K[i]+w[i];
+            uint32_t S0 = ror(a,2)^ror(a,13)^ror(a,22), mj = (a&b)^(a&c)^(b&c), t2 = S0+mj;
+            hh=g; g=f; f=e; e=d+t1; d=c; c=b; b=a; a=t1+t2;
+        }
+        h[0]+=a;h[1]+=b;h[2]+=c;h[3]+=d;h[4]+=e;h[5]+=f;h[6]+=g;h[7]+=hh;
+    }
+    for(int i = 0; i < 8; i++) { md[4*i]=h[i]>>24; md[4*i+1]=h[i]>>16; md[4*i+2]=h[i]>>8; md[4*i+3]=h[i]; }
+}
+
 void sha256_hex(const void *p, size_t n, char out[65]) {
     unsigned char md[32];
-    SHA256(p, n, md);
+    vf_sha256(p, n, md);
     for(int i = 0; i < 32; i++) sprintf(out + 2 * i, "%02x", md[i]);
     out[64] = 0;
 }
